@@ -96,13 +96,20 @@ class FakeSocket:
     def settimeout(self, t):
         self.timeout = t
 
+    def _alive(self):
+        if not self.open:
+            raise OSError(9, "Bad file descriptor")
+
     def send(self, data):
+        self._alive()
         return self.line.write(data)
 
     def sendto(self, data, addr):
+        self._alive()
         return self.line.write(data)
 
     def recv(self, n):
+        self._alive()
         ln = self.line
         if ln.hook:
             ln.hook("recv")
@@ -115,6 +122,7 @@ class FakeSocket:
         return got
 
     def recvfrom(self, n):
+        self._alive()
         ln = self.line
         if ln.hook:
             ln.hook("recv")
